@@ -1,14 +1,1460 @@
-//! C08 — not implemented yet (stub).
-use crate::report::{Cfg, Meta, Report};
+//! C08 — the program commitment is the specified MAST hash of the executable code.
+//!
+//! (a) G-span: spans built through `CodeBlock::new_span` and through assembly text for every
+//!     push/non-push pattern up to a length bound, periodic continuations of short patterns over
+//!     several batches, and random opcode sequences up to 600 operations: structural batching rules on
+//!     the REAL `Span::op_batches()`, decoding of every group value back into the operation sequence,
+//!     group values and hash against the reference batcher of M-mast (`models::mast`) + miden-crypto;
+//! (b) every node of every assembled program (generated programs, hand-written corpus, stdlib
+//!     procedures, repository examples) re-hashed bottom-up with M-mast;
+//! (c) metamorphic source edits through the real assembler (comments, whitespace, procedure names,
+//!     debug mode, decorators, advice injectors → same root; one operation / immediate → other root);
+//! (d) hash and kernel recorded by an execution (and carried through prove/verify) = the program's.
+
+use crate::case::{AsmOutcome, Case, ExecOutcome};
+use crate::gen::{gen_case, GenCfg};
+use crate::models::mast::{
+    self, batch_ops, decode_batches, doc_opcode, same_up_to_noop_padding, span_hash_of_batches, BatchTrace, Kind,
+    PlainBatch, RefOp, Walker, GROUPS_PER_BATCH, OPS_PER_GROUP,
+};
+use crate::pv::{self, ProveOutcome, VerifyOutcome};
+use crate::report::{merge_all, truncate, Cfg, Meta, Report, Tier};
+use crate::tair::opcode_at;
+use winter_prover::Trace;
+use crate::util::{biased_felt, catch, par_map, rng_for, Rng8, P};
+use processor::{Program, ProgramInfo};
+use rand::seq::SliceRandom;
+use rand::Rng;
+use serde_json::{json, Value};
+use vm_core::code_blocks::CodeBlock;
+use vm_core::crypto::hash::{Rpo256, RpoDigest};
+use vm_core::{Felt, Kernel, Operation};
 
 pub fn meta() -> Meta {
-    Meta { level: "exploration", rule: "stub".into(), assumptions: vec![] }
+    Meta {
+        level: "exploration",
+        rule: "evaluations: (1) one span = one operation sequence turned into a Span by CodeBlock::new_span or by the assembler, whose real op batches are checked against the documented batching rules, decoded back group by group and compared (group values, hash) with the reference batcher + miden-crypto; distinct = distinct (construction route, #batches, groups used in the last batch, ops in its last group, immediate-in-last-group, PUSH deferred from index 8, batch boundary kind); exhaustive over all push/non-push patterns up to the tier's length bound, periodic continuations of all short patterns, random sequences up to 600 ops; (2) one MAST node of an assembled program re-hashed bottom-up with M-mast, distinct = (node kind, depth, source family); (3) one metamorphic pair (base program, edited program) through the real assembler, distinct = (edit kind, features of the base program); (4) one execution / proof whose recorded program hash and kernel are compared with the program's, distinct = (kernel?, outcome)".into(),
+        assumptions: vec![
+            "M-mast (models/mast.rs) is written from docs/src/design/programs.md, decoder/main.md and the opcode tables of stack/op_constraints.md; three details left open by the docs (O1–O3 in the model) are settled by the decode-back requirement".into(),
+            "miden-crypto's Rpo256::merge_in_domain / hash_elements are trusted as the specified hash function".into(),
+            "span operation lists of assembled programs are read from OpBatch::ops(); callee bodies are found through Program::cb_table()".into(),
+            "collision resistance of RPO: distinct group sequences are expected to give distinct hashes".into(),
+        ],
+    }
 }
 
-pub fn run(_cfg: &Cfg) -> Report {
-    let mut rep = Report::new();
-    rep.inconclusive("not-implemented");
+// OPERATIONS
+// ================================================================================================
+
+/// Every operation which may appear in a span (no flow-control operations), PUSH excluded.
+fn plain_ops() -> Vec<Operation> {
+    use Operation::*;
+    vec![
+        Noop, Assert(0), FmpAdd, FmpUpdate, SDepth, Caller, Clk, Add, Neg, Mul, Inv, Incr, And, Or, Not, Eq, Eqz,
+        Expacc, Ext2Mul, U32split, U32add, U32assert2(Felt::new(0)), U32add3, U32sub, U32mul, U32madd, U32div,
+        U32and, U32xor, Pad, Drop, Dup0, Dup1, Dup2, Dup3, Dup4, Dup5, Dup6, Dup7, Dup9, Dup11, Dup13, Dup15, Swap,
+        SwapW, SwapW2, SwapW3, SwapDW, MovUp2, MovUp3, MovUp4, MovUp5, MovUp6, MovUp7, MovUp8, MovDn2, MovDn3,
+        MovDn4, MovDn5, MovDn6, MovDn7, MovDn8, CSwap, CSwapW, AdvPop, AdvPopW, MLoadW, MStoreW, MLoad, MStore,
+        MStream, Pipe, HPerm, MpVerify, MrUpdate, FriE2F4, RCombBase,
+    ]
+}
+
+fn op_to_json(op: &Operation) -> Value {
+    let extra = match op {
+        Operation::Push(v) => v.as_int().to_string(),
+        Operation::Assert(e) => e.to_string(),
+        Operation::U32assert2(e) => e.as_int().to_string(),
+        _ => String::new(),
+    };
+    json!([doc_opcode(op), extra])
+}
+
+fn op_from_json(v: &Value) -> Option<Operation> {
+    let code = v.get(0)?.as_u64()? as u8;
+    let extra: u64 = v.get(1).and_then(|e| e.as_str()).and_then(|s| s.parse().ok()).unwrap_or(0);
+    Some(match code {
+        100 => Operation::Push(Felt::new(extra)),
+        32 => Operation::Assert(extra as u32),
+        74 => Operation::U32assert2(Felt::new(extra)),
+        c => plain_ops().into_iter().find(|o| doc_opcode(o) == c)?,
+    })
+}
+
+fn ops_to_json(ops: &[Operation]) -> Value {
+    Value::Array(ops.iter().map(op_to_json).collect())
+}
+
+fn digest_str(d: &RpoDigest) -> String {
+    let e: [Felt; 4] = (*d).into();
+    format!("[{},{},{},{}]", e[0].as_int(), e[1].as_int(), e[2].as_int(), e[3].as_int())
+}
+
+// SPAN COVERAGE
+// ================================================================================================
+
+#[derive(Default)]
+struct Cov {
+    /// reference accumulator states (groups in use, ops in current group)
+    states: [[u64; OPS_PER_GROUP + 1]; GROUPS_PER_BATCH + 1],
+    /// real last-batch fill (groups used in last batch, ops in last group)
+    fill: [[u64; OPS_PER_GROUP + 1]; GROUPS_PER_BATCH + 1],
+    batches: [u64; 12],
+    max_batches: usize,
+    imm_at_last_slot: u64,
+    deferred_idx8: u64,
+    new_batch_no_imm_slot: u64,
+    new_batch_groups_full: u64,
+    imm_op_then_noop: u64,
+    spans: u64,
+    ops: u64,
+    noops_added: u64,
+}
+
+impl Cov {
+    fn add_trace(&mut self, t: &BatchTrace) {
+        for g in 0..=GROUPS_PER_BATCH {
+            for o in 0..=OPS_PER_GROUP {
+                self.states[g][o] += t.states[g][o] as u64;
+            }
+        }
+        self.imm_at_last_slot += t.imm_at_last_slot as u64;
+        self.deferred_idx8 += t.imm_op_deferred_from_idx8 as u64;
+        self.new_batch_no_imm_slot += t.new_batch_no_imm_slot as u64;
+        self.new_batch_groups_full += t.new_batch_groups_full as u64;
+        self.imm_op_then_noop += t.imm_op_then_noop as u64;
+    }
+    fn flush(&self, rep: &mut Report) {
+        for g in 1..=GROUPS_PER_BATCH {
+            for o in 1..=OPS_PER_GROUP {
+                if self.states[g][o] > 0 {
+                    rep.count_n("accumulator_state(groups_in_use,ops_in_group)", &format!("g{g}o{o}"), self.states[g][o]);
+                }
+                if self.fill[g][o] > 0 {
+                    rep.count_n("real_last_batch_fill(groups,ops_in_last_group)", &format!("g{g}o{o}"), self.fill[g][o]);
+                }
+            }
+        }
+        for (i, n) in self.batches.iter().enumerate() {
+            if *n > 0 {
+                let k = if i == 11 { ">10".to_string() } else { i.to_string() };
+                rep.count_n("span_batches", &k, *n);
+            }
+        }
+        let mut ev = |k: &str, n: u64| {
+            if n > 0 {
+                rep.count_n("batching_events", k, n);
+            }
+        };
+        ev("immediate-in-last-group-of-batch", self.imm_at_last_slot);
+        ev("push-deferred-from-group-index-8", self.deferred_idx8);
+        ev("new-batch:no-group-left-for-immediate", self.new_batch_no_imm_slot);
+        ev("new-batch:all-groups-full", self.new_batch_groups_full);
+        ev("push-last-in-group-followed-by-noop", self.imm_op_then_noop);
+        ev("spans", self.spans);
+        ev("operations", self.ops);
+        ev("noops-added-by-real-batcher", self.noops_added);
+        if self.max_batches > 0 {
+            rep.count("max_batches_in_one_span(per_shard)", &format!("{:03}", self.max_batches));
+        }
+    }
+}
+
+// (a) G-SPAN ORACLE
+// ================================================================================================
+
+fn plain_batches(span: &vm_core::code_blocks::Span) -> Vec<PlainBatch> {
+    span.op_batches()
+        .iter()
+        .map(|b| {
+            let mut groups = [0u64; GROUPS_PER_BATCH];
+            for (i, g) in b.groups().iter().enumerate() {
+                groups[i] = g.as_int();
+            }
+            PlainBatch { groups, op_counts: *b.op_counts(), num_groups: b.num_groups() }
+        })
+        .collect()
+}
+
+/// Checks one real span block against the documented rules and the reference model.
+/// `input` is the operation sequence the span was made from. Returns true if no violation was found.
+fn check_span(
+    input: &[Operation],
+    block: &CodeBlock,
+    via: &str,
+    cov: &mut Cov,
+    rep: &mut Report,
+    wit: &dyn Fn() -> Value,
+) -> bool {
+    let span = match block {
+        CodeBlock::Span(s) => s,
+        other => {
+            rep.violation(
+                format!("span/{via}/not-a-span"),
+                format!("a linear operation sequence did not become a span block: {}", truncate(&format!("{other}"), 200)),
+                wit(),
+            );
+            return false;
+        }
+    };
+    let mut ok = true;
+    let real = plain_batches(span);
+    let dec = decode_batches(&real);
+    for (sig, detail) in &dec.issues {
+        ok = false;
+        rep.violation(format!("span/{sig}"), format!("[{via}] batching rule broken: {detail}"), wit());
+    }
+    // the operation list reported by each batch is what its groups encode
+    let mut off = 0usize;
+    for (bi, b) in span.op_batches().iter().enumerate() {
+        let n = dec.ops_per_batch[bi];
+        let listed: Vec<RefOp> = b.ops().iter().map(RefOp::of).collect();
+        if listed.as_slice() != &dec.ops[off..off + n] {
+            ok = false;
+            rep.violation(
+                "span/ops-list-differs-from-groups",
+                format!("[{via}] batch {bi}: OpBatch::ops() lists {} operations which are not the {} operations encoded by its groups", listed.len(), n),
+                wit(),
+            );
+        }
+        off += n;
+    }
+    // groups decode back to the input up to NOOP padding
+    let refops: Vec<RefOp> = input.iter().map(RefOp::of).collect();
+    match same_up_to_noop_padding(&refops, &dec.ops) {
+        Ok(added) => cov.noops_added += added as u64,
+        Err(e) => {
+            ok = false;
+            rep.violation("span/groups-do-not-decode-to-input", format!("[{via}] {e}"), wit());
+        }
+    }
+    // reference batcher + miden-crypto
+    let (model, tr) = batch_ops(&refops);
+    let model_hash = span_hash_of_batches(&model);
+    let real_hash = block.hash();
+    let mut flat: Vec<Felt> = vec![];
+    for b in span.op_batches() {
+        flat.extend_from_slice(b.groups());
+    }
+    if Rpo256::hash_elements(&flat) != real_hash {
+        ok = false;
+        rep.violation(
+            "span/hash-is-not-rpo-of-all-groups",
+            format!("[{via}] Span::hash() = {} but RPO over the {} group values of its batches = {}", digest_str(&real_hash), flat.len(), digest_str(&Rpo256::hash_elements(&flat))),
+            wit(),
+        );
+    }
+    let same_groups = model.len() == real.len() && model.iter().zip(real.iter()).all(|(m, r)| m.groups == r.groups);
+    if !same_groups {
+        ok = false;
+        let mut detail = format!("{} real batches vs {} reference batches", real.len(), model.len());
+        for (bi, (m, r)) in model.iter().zip(real.iter()).enumerate() {
+            if m.groups != r.groups {
+                detail = format!("first difference in batch {bi}: real groups {:x?} reference groups {:x?}", r.groups, m.groups);
+                break;
+            }
+        }
+        rep.violation("span/groups-differ-from-reference-batcher", format!("[{via}] {detail}"), wit());
+    } else if model_hash != real_hash {
+        ok = false;
+        rep.violation(
+            "span/hash-differs-from-spec",
+            format!("[{via}] Span::hash() = {} but M-mast gives {}", digest_str(&real_hash), digest_str(&model_hash)),
+            wit(),
+        );
+    }
+    // number-of-groups convention of the accessor (the docs allow the count before or after padding)
+    for (m, r) in model.iter().zip(real.iter()) {
+        let c = if r.num_groups == m.padded() {
+            if m.padded() == m.used() {
+                "exact"
+            } else {
+                "padded-to-1-2-4-8"
+            }
+        } else if r.num_groups == m.used() {
+            "unpadded"
+        } else {
+            "other"
+        };
+        rep.count("num_groups_accessor", c);
+    }
+    // coverage
+    cov.add_trace(&tr);
+    cov.spans += 1;
+    cov.ops += input.len() as u64;
+    let nb = real.len();
+    cov.batches[nb.min(11)] += 1;
+    cov.max_batches = cov.max_batches.max(nb);
+    let g_last = dec.used_groups.last().copied().unwrap_or(0).min(GROUPS_PER_BATCH);
+    let o_last = dec.ops_in_last_group.min(OPS_PER_GROUP);
+    cov.fill[g_last][o_last] += 1;
+    let key = format!(
+        "span|{via}|nb{}|g{}|o{}|i7:{}|d8:{}|ni:{}|gf:{}",
+        nb.min(6),
+        g_last,
+        o_last,
+        (tr.imm_at_last_slot > 0) as u8,
+        (tr.imm_op_deferred_from_idx8 > 0) as u8,
+        (tr.new_batch_no_imm_slot > 0) as u8,
+        (tr.new_batch_groups_full > 0) as u8
+    );
+    rep.eval(&key);
+    ok
+}
+
+fn span_via_api(ops: &[Operation], cov: &mut Cov, rep: &mut Report) -> Option<RpoDigest> {
+    let wit = || json!({"kind": "span", "via": "api", "ops": ops_to_json(ops)});
+    let v = ops.to_vec();
+    match catch(move || CodeBlock::new_span(v)) {
+        Ok(block) => {
+            check_span(ops, &block, "api", cov, rep, &wit);
+            Some(block.hash())
+        }
+        Err(p) => {
+            rep.violation(
+                format!("span/new_span-panic/{}", p.site()),
+                format!("CodeBlock::new_span panicked on {} valid operations: {} at {}", ops.len(), p.message, p.location),
+                wit(),
+            );
+            None
+        }
+    }
+}
+
+/// push/non-push pattern of length n: bit i set → PUSH(1000+i), else ADD (even i) / SWAP (odd i)
+fn pattern_ops(n: usize, bits: u64) -> Vec<Operation> {
+    (0..n)
+        .map(|i| {
+            if (bits >> (i % 64)) & 1 == 1 {
+                Operation::Push(Felt::new(1000 + i as u64))
+            } else if i % 2 == 0 {
+                Operation::Add
+            } else {
+                Operation::Swap
+            }
+        })
+        .collect()
+}
+
+/// assembly text for a sequence made of ADD / SWAP / PUSH(v >= 2)
+fn pattern_src(ops: &[Operation]) -> String {
+    let mut s = String::with_capacity(ops.len() * 10 + 12);
+    s.push_str("begin");
+    for op in ops {
+        match op {
+            Operation::Add => s.push_str(" add"),
+            Operation::Swap => s.push_str(" swap"),
+            Operation::Push(v) => {
+                s.push_str(" push.");
+                s.push_str(&v.as_int().to_string());
+            }
+            _ => unreachable!("pattern op"),
+        }
+    }
+    s.push_str(" end");
+    s
+}
+
+fn span_via_asm(ops: &[Operation], src: &str, cov: &mut Cov, rep: &mut Report) -> Option<RpoDigest> {
+    let case = Case::new(src);
+    let wit = || json!({"kind": "span", "via": "asm", "ops": ops_to_json(ops), "src": src});
+    match case.assemble() {
+        AsmOutcome::Ok(prog) => {
+            check_span(ops, prog.root(), "asm", cov, rep, &wit);
+            if prog.hash() != prog.root().hash() {
+                rep.violation("program/hash-is-not-root-hash", "Program::hash() differs from the hash of its root block", wit());
+            }
+            Some(prog.hash())
+        }
+        AsmOutcome::Err(e) => {
+            rep.count("span_asm_outcome", &format!("err:{}", truncate(&e, 60)));
+            None
+        }
+        AsmOutcome::Panic(p) => {
+            rep.violation(
+                format!("span/assembler-panic/{}", p.site()),
+                format!("assembling a straight-line program panicked: {} at {}", p.message, p.location),
+                wit(),
+            );
+            None
+        }
+    }
+}
+
+/// both routes for one pattern; the two hashes must also agree with each other
+fn pattern_case(ops: &[Operation], cov: &mut Cov, rep: &mut Report) {
+    rep.count("g_span_family", "exhaustive-patterns(api+asm)");
+    let a = span_via_api(ops, cov, rep);
+    let src = pattern_src(ops);
+    let b = span_via_asm(ops, &src, cov, rep);
+    if let (Some(a), Some(b)) = (a, b) {
+        if a != b {
+            rep.violation(
+                "span/api-and-assembler-hash-differ",
+                format!("new_span gives {} but the assembled text gives {}", digest_str(&a), digest_str(&b)),
+                json!({"kind": "span", "via": "asm", "ops": ops_to_json(ops), "src": src}),
+            );
+        }
+    }
+}
+
+fn random_ops(rng: &mut Rng8, plain: &[Operation]) -> Vec<Operation> {
+    let len = match rng.gen_range(0..10) {
+        0 => rng.gen_range(1..=12),
+        1 => rng.gen_range(60..=80),
+        2 => rng.gen_range(140..=150),
+        3 => rng.gen_range(280..=600),
+        _ => rng.gen_range(1..=600),
+    };
+    let density = [0.0, 0.03, 0.1, 0.25, 0.5, 0.8, 0.95, 1.0][rng.gen_range(0..8)];
+    let noop_boost = rng.gen_bool(0.15);
+    (0..len)
+        .map(|_| {
+            if rng.gen_bool(density) {
+                let v = match rng.gen_range(0..6) {
+                    0 => rng.gen_range(0..128u64),
+                    1 => 100 | (rng.gen_range(0..1u64 << 56) << 7), // looks like a group starting with PUSH
+                    _ => biased_felt(rng),
+                };
+                Operation::Push(Felt::new(v))
+            } else if noop_boost && rng.gen_bool(0.3) {
+                Operation::Noop
+            } else {
+                match plain[rng.gen_range(0..plain.len())] {
+                    Operation::Assert(_) => Operation::Assert(rng.gen()),
+                    Operation::U32assert2(_) => Operation::U32assert2(Felt::new(rng.gen::<u32>() as u64)),
+                    o => o,
+                }
+            }
+        })
+        .collect()
+}
+
+/// one random span + single-position mutants (hash sensitivity at span level)
+fn random_span_case(rng: &mut Rng8, plain: &[Operation], cov: &mut Cov, rep: &mut Report) {
+    let ops = random_ops(rng, plain);
+    let h = match span_via_api(&ops, cov, rep) {
+        Some(h) => h,
+        None => return,
+    };
+    if rep.samples.len() < 2 && ops.len() < 40 {
+        rep.sample(json!({"what": "random span via CodeBlock::new_span", "ops": ops_to_json(&ops), "hash": digest_str(&h)}));
+    }
+    // mutate one operation (never from / to NOOP: the docs allow NOOP placement to leave the hash unchanged)
+    let i = rng.gen_range(0..ops.len());
+    let mut m = ops.clone();
+    let kind;
+    match ops[i] {
+        Operation::Push(v) => {
+            if rng.gen_bool(0.7) {
+                let mut nv = biased_felt(rng);
+                if nv == v.as_int() {
+                    nv = (nv + 1) % P;
+                }
+                m[i] = Operation::Push(Felt::new(nv));
+                kind = "immediate";
+            } else {
+                m[i] = Operation::Add;
+                kind = "push-to-op";
+            }
+        }
+        Operation::Noop => return,
+        Operation::Assert(e) if rng.gen_bool(0.5) => {
+            // error codes are not part of the documented commitment: observed, not judged
+            m[i] = Operation::Assert(e.wrapping_add(1));
+            if let Ok(b) = catch(|| CodeBlock::new_span(m.clone())) {
+                rep.count("assert_err_code_change", if b.hash() == h { "root-unchanged" } else { "root-changed" });
+            }
+            return;
+        }
+        old => {
+            let mut new = plain[rng.gen_range(0..plain.len())];
+            while doc_opcode(&new) == doc_opcode(&old) || new == Operation::Noop {
+                new = plain[rng.gen_range(0..plain.len())];
+            }
+            m[i] = new;
+            kind = "operation";
+        }
+    }
+    if let Some(hm) = span_via_api(&m, cov, rep) {
+        rep.eval(&format!("span-mutant|{kind}"));
+        rep.count("span_sensitivity", kind);
+        if hm == h {
+            rep.violation(
+                format!("span/hash-insensitive-to-{kind}-change"),
+                format!("changing operation #{i} from {} to {} leaves the span hash unchanged", ops[i], m[i]),
+                json!({"kind": "span-pair", "ops": ops_to_json(&ops), "mutant": ops_to_json(&m)}),
+            );
+        }
+    }
+}
+
+// (b) MAST WALK
+// ================================================================================================
+
+/// Re-hashes every node of `prog` with M-mast. Returns the model's root hash.
+fn check_program(prog: &Program, family: &str, cov: &mut Cov, rep: &mut Report, wit: &dyn Fn() -> Value) -> RpoDigest {
+    let kernel: Vec<RpoDigest> = prog.kernel().proc_hashes().to_vec();
+    let mut nodes = 0u64;
+    let mut max_depth = 0usize;
+    let model_root;
+    let opaque;
+    {
+        let mut walker = Walker::new(Some(prog.cb_table()), |v: mast::Visit| {
+            nodes += 1;
+            max_depth = max_depth.max(v.depth);
+            rep.eval(&format!("node|{family}|{}|d{}", v.kind.name(), v.depth.min(10)));
+            rep.count("mast_node_kind", v.kind.name());
+            if v.depth >= 3 {
+                rep.count("mast_node_kind_at_depth>=3", v.kind.name());
+            }
+            if v.model != v.real {
+                rep.violation(
+                    format!("mast/{}-hash-differs-from-spec", v.kind.name()),
+                    format!("{} node at depth {}: CodeBlock::hash() = {} but M-mast gives {}", v.kind.name(), v.depth, digest_str(&v.real), digest_str(&v.model)),
+                    wit(),
+                );
+            }
+            match (v.kind, v.block) {
+                (Kind::Span, CodeBlock::Span(s)) => {
+                    let ops = mast::span_ops(s);
+                    rep.count_n("mast_span_decorators", if s.decorators().is_empty() { "spans-without" } else { "spans-with" }, 1);
+                    check_span(&ops, v.block, "mast", cov, rep, wit);
+                }
+                (Kind::SysCall, CodeBlock::Call(c)) => {
+                    if !kernel.contains(&c.fn_hash()) {
+                        rep.violation("mast/syscall-target-not-in-kernel", format!("syscall to {} which is not a kernel procedure", digest_str(&c.fn_hash())), wit());
+                    }
+                }
+                _ => {}
+            }
+        });
+        model_root = walker.hash(prog.root(), 0);
+        opaque = walker.opaque_callees;
+    }
+    rep.count_n("mast_nodes_walked", family, nodes);
+    rep.count("mast_depth", &format!("{}", max_depth.min(12)));
+    if opaque > 0 {
+        rep.count_n("mast_call_targets_not_in_cb_table", family, opaque as u64);
+    }
+    if model_root != prog.hash() {
+        rep.violation(
+            "program/hash-differs-from-spec",
+            format!("Program::hash() = {} but M-mast root = {}", digest_str(&prog.hash()), digest_str(&model_root)),
+            wit(),
+        );
+    }
+    model_root
+}
+
+// (d) EXECUTION / PROOF
+// ================================================================================================
+
+fn kernels_equal(a: &Kernel, b: &Kernel) -> bool {
+    a.proc_hashes() == b.proc_hashes()
+}
+
+fn check_execution(case: &Case, prog: &Program, model_root: RpoDigest, rep: &mut Report, wit: &dyn Fn() -> Value) -> bool {
+    match case.execute(prog) {
+        ExecOutcome::Ok(trace) => {
+            let kernel_class = if prog.kernel().is_empty() { "no-kernel" } else { "kernel" };
+            rep.eval(&format!("exec|{kernel_class}|debug:{}", case.debug_mode));
+            rep.count("exec_outcome", "ok");
+            if *trace.program_hash() != model_root {
+                rep.violation(
+                    "exec/trace-program-hash-differs",
+                    format!("ExecutionTrace::program_hash() = {} but the program commitment is {}", digest_str(trace.program_hash()), digest_str(&model_root)),
+                    wit(),
+                );
+            }
+            let info = trace.program_info();
+            if *info.program_hash() != prog.hash() || !kernels_equal(info.kernel(), prog.kernel()) {
+                rep.violation("exec/trace-program-info-differs", "ExecutionTrace::program_info() does not carry the program's hash and kernel", wit());
+            }
+            if *info != ProgramInfo::from(prog.clone()) {
+                rep.violation("exec/program-info-from-program-differs", "ProgramInfo::from(program) differs from the info recorded by the execution", wit());
+            }
+            // hash as left by the decoder in the trace itself: hasher state of the last END row
+            let main = trace.main_segment();
+            let n = trace.trace_len_summary().main_trace_len().min(main.num_rows());
+            let mut row = None;
+            for r in (0..n).rev() {
+                if opcode_at(main, r) == 112 {
+                    row = Some(r);
+                    break;
+                }
+            }
+            match row {
+                Some(r) => {
+                    let h: Vec<u64> = (0..4).map(|i| main.get(16 + i, r).as_int()).collect();
+                    let e: [Felt; 4] = model_root.into();
+                    if h != e.iter().map(|x| x.as_int()).collect::<Vec<_>>() {
+                        rep.violation(
+                            "exec/decoder-final-end-row-hash-differs",
+                            format!("hasher columns h0..h3 of the final END row {r} = {:?} but the program commitment is {}", h, digest_str(&model_root)),
+                            wit(),
+                        );
+                    }
+                    rep.count("exec_end_row_hash", "compared");
+                }
+                None => rep.count("exec_end_row_hash", "no-END-row-found"),
+            }
+            true
+        }
+        ExecOutcome::Err(e) => {
+            rep.count("exec_outcome", &format!("err:{}", crate::case::err_kind(&e)));
+            false
+        }
+        ExecOutcome::Panic(p) => {
+            rep.count("exec_outcome", &format!("panic:{}", p.site()));
+            if p.message.contains("inconsistent program hash") {
+                rep.violation("exec/inconsistent-program-hash-panic", format!("processor::execute: {}", p.message), wit());
+            }
+            false
+        }
+    }
+}
+
+fn check_proof(case: &Case, prog: &Program, model_root: RpoDigest, rep: &mut Report) {
+    let wit = || json!({"kind": "proof", "case": case.to_json()});
+    let (outputs, proof) = match pv::prove(case, prog, pv::options(0)) {
+        ProveOutcome::Ok(o, p) => (o, p),
+        ProveOutcome::Err(_) => {
+            rep.count("proof_outcome", "prove-err");
+            return;
+        }
+        ProveOutcome::Panic(p) => {
+            rep.count("proof_outcome", &format!("prove-panic:{}", p.site()));
+            return;
+        }
+    };
+    // the statement verified is (M-mast root, kernel): the proof must be accepted for it …
+    let info = ProgramInfo::new(model_root, prog.kernel().clone());
+    match pv::verify(info, case.stack_inputs(), outputs.clone(), proof.clone()) {
+        VerifyOutcome::Ok(_) => {
+            rep.count("proof_outcome", "accepted-for-model-root");
+            rep.eval(&format!("proof|kernel:{}", !prog.kernel().is_empty()));
+        }
+        other => rep.violation(
+            "proof/rejected-for-spec-root",
+            format!("honest proof not accepted for the program info built from the M-mast root: {}", other.class()),
+            wit(),
+        ),
+    }
+    // … and rejected for another commitment
+    let e: [Felt; 4] = model_root.into();
+    let other_root = RpoDigest::new([e[0] + Felt::new(1), e[1], e[2], e[3]]);
+    let info2 = ProgramInfo::new(other_root, prog.kernel().clone());
+    match pv::verify(info2, case.stack_inputs(), outputs, proof) {
+        VerifyOutcome::Ok(_) => rep.violation("proof/accepted-for-other-root", "proof accepted for a different program hash", wit()),
+        VerifyOutcome::Err(_) => rep.count("proof_outcome", "rejected-for-other-root"),
+        VerifyOutcome::Panic(p) => rep.count("proof_outcome", &format!("verify-panic-other-root:{}", p.site())),
+    }
+}
+
+// (c) METAMORPHIC SOURCE EDITS
+// ================================================================================================
+
+const EDITS_SAME: [&str; 7] = ["comments", "whitespace", "rename-procs", "debug-mode", "decorators", "adv-injectors", "all-neutral"];
+const EDITS_DIFF: [&str; 2] = ["change-immediate", "change-operation"];
+
+fn toks(src: &str) -> Vec<String> {
+    src.split_whitespace().map(|s| s.to_string()).collect()
+}
+
+fn render_plain(t: &[String]) -> String {
+    t.join(" ")
+}
+
+fn render_fancy(t: &[String], rng: &mut Rng8, comments: bool, whitespace: bool) -> String {
+    const WORDS: [&str; 10] =
+        ["begin", "end", "push.1", "if.true", "# nested", "proc.x", "exec.f0", "add", "émoji ✓", "0x1234 while.true"];
+    let mut s = String::new();
+    if comments && rng.gen_bool(0.5) {
+        s.push_str("# leading comment\n");
+    }
+    for (i, tok) in t.iter().enumerate() {
+        s.push_str(tok);
+        if i + 1 == t.len() {
+            break;
+        }
+        if comments && rng.gen_bool(0.25) {
+            let n = rng.gen_range(0..4);
+            let words: Vec<&str> = (0..n).map(|_| *WORDS.choose(rng).unwrap()).collect();
+            s.push_str(&format!(" # {}\n", words.join(" ")));
+            if rng.gen_bool(0.2) {
+                s.push_str("#\n");
+            }
+        } else if whitespace {
+            s.push_str(["  ", "\n", "\n\n", "\t", " \t ", "\n    ", "     ", " \n"][rng.gen_range(0..8)]);
+        } else {
+            s.push(' ');
+        }
+    }
+    if comments && rng.gen_bool(0.5) {
+        s.push_str("\n# trailing comment");
+    }
+    s.push('\n');
+    s
+}
+
+fn new_name(rng: &mut Rng8, used: &mut Vec<String>) -> String {
+    const FIRST: &[u8] = b"abcdefghijklmnopqrstuvwxyzABCDEFGHIJKLMNOPQRSTUVWXYZ";
+    const REST: &[u8] = b"abcdefghijklmnopqrstuvwxyzABCDEFGHIJKLMNOPQRSTUVWXYZ0123456789_";
+    loop {
+        let len = match rng.gen_range(0..6) {
+            0 => 1,
+            1 => 100,
+            _ => rng.gen_range(2..30),
+        };
+        let mut s = String::new();
+        s.push(FIRST[rng.gen_range(0..FIRST.len())] as char);
+        for _ in 1..len {
+            s.push(REST[rng.gen_range(0..REST.len())] as char);
+        }
+        if !used.contains(&s) {
+            used.push(s.clone());
+            return s;
+        }
+    }
+}
+
+/// consistent renaming of all procedures declared in the program and in the kernel
+fn rename_procs(main: &mut [String], kernel: &mut Option<Vec<String>>, rng: &mut Rng8) -> usize {
+    let mut map: Vec<(String, String)> = vec![];
+    let mut used = vec![];
+    let mut declare = |t: &[String], map: &mut Vec<(String, String)>, rng: &mut Rng8| {
+        for tok in t {
+            for pre in ["proc.", "export."] {
+                if let Some(rest) = tok.strip_prefix(pre) {
+                    let name = rest.split('.').next().unwrap_or("").to_string();
+                    if !name.is_empty() && !map.iter().any(|(o, _)| *o == name) {
+                        let n = new_name(rng, &mut used);
+                        map.push((name, n));
+                    }
+                }
+            }
+        }
+    };
+    declare(main, &mut map, rng);
+    if let Some(k) = kernel.as_ref() {
+        declare(k, &mut map, rng);
+    }
+    let apply = |t: &mut [String], map: &[(String, String)]| {
+        for tok in t.iter_mut() {
+            for pre in ["proc.", "export.", "exec.", "call.", "syscall.", "procref."] {
+                if let Some(rest) = tok.strip_prefix(pre) {
+                    let mut parts = rest.splitn(2, '.');
+                    let name = parts.next().unwrap_or("");
+                    let tail = parts.next();
+                    if let Some((_, new)) = map.iter().find(|(o, _)| o == name) {
+                        *tok = match tail {
+                            Some(x) => format!("{pre}{new}.{x}"),
+                            None => format!("{pre}{new}"),
+                        };
+                    }
+                    break;
+                }
+            }
+        }
+    };
+    apply(main, &map);
+    if let Some(k) = kernel.as_mut() {
+        apply(k, &map);
+    }
+    map.len()
+}
+
+/// a decorator may follow these tokens without becoming the only content of a block
+fn emits_ops(tok: &str) -> bool {
+    tok.starts_with("push.")
+        || matches!(tok, "add" | "sub" | "mul" | "neg" | "swap" | "drop" | "dropw" | "padw" | "eq" | "neq" | "not" | "hperm" | "sdepth" | "clk" | "eqw")
+        || tok.starts_with("dup.")
+        || tok.starts_with("mem_load")
+        || tok.starts_with("mem_store")
+}
+
+fn insert_after_ops(t: &[String], rng: &mut Rng8, choices: &[&str], p: f64) -> (Vec<String>, usize) {
+    let mut out = Vec::with_capacity(t.len() + 8);
+    let mut n = 0;
+    for tok in t {
+        out.push(tok.clone());
+        if emits_ops(tok) && rng.gen_bool(p) {
+            let k = rng.gen_range(1..3);
+            for _ in 0..k {
+                let d = *choices.choose(rng).unwrap();
+                let d = d.replace("{u32}", &rng.gen::<u32>().to_string()).replace("{u8}", &rng.gen_range(1..256u32).to_string());
+                out.push(d);
+                n += 1;
+            }
+        }
+    }
+    (out, n)
+}
+
+const DECORATORS: [&str; 9] =
+    ["debug.stack", "debug.stack.{u8}", "debug.mem", "debug.mem.{u32}", "debug.mem.1.{u32}", "emit.{u32}", "trace.{u32}", "emit.0", "trace.0"];
+const ADV_INJECTORS: [&str; 12] = [
+    "adv.push_mapval",
+    "adv.push_mapval.1",
+    "adv.push_mapvaln",
+    "adv.push_mtnode",
+    "adv.push_u64div",
+    "adv.push_ext2intt",
+    "adv.push_smtpeek",
+    "adv.insert_mem",
+    "adv.insert_hdword",
+    "adv.insert_hdword.{u8}",
+    "adv.insert_hperm",
+    "adv.push_sig.rpo_falcon512",
+];
+
+/// instructions without immediates whose expansions into VM operations are pairwise different
+const SIMPLE_INSTR: [&str; 16] =
+    ["add", "sub", "mul", "neg", "inv", "eq", "neq", "not", "and", "or", "swap", "drop", "padw", "dropw", "hperm", "sdepth"];
+
+struct Variant {
+    edit: &'static str,
+    case: Case,
+    expect_same: bool,
+    note: String,
+}
+
+fn main_start(t: &[String]) -> usize {
+    t.iter().rposition(|x| x == "begin").map(|i| i + 1).unwrap_or(0)
+}
+
+fn make_variant(base: &Case, edit: &'static str, rng: &mut Rng8) -> Option<Variant> {
+    let mut main = toks(&base.src);
+    let mut kernel: Option<Vec<String>> = base.kernel.as_ref().map(|k| toks(k));
+    let mut c = base.clone();
+    let mut note = String::new();
+    let mut expect_same = true;
+    let mut fancy = (false, false);
+    match edit {
+        "comments" => fancy = (true, false),
+        "whitespace" => fancy = (false, true),
+        "rename-procs" => {
+            let n = rename_procs(&mut main, &mut kernel, rng);
+            if n == 0 {
+                return None;
+            }
+            note = format!("{n} procedures renamed");
+        }
+        "debug-mode" => c.debug_mode = !base.debug_mode,
+        "decorators" => {
+            let (m, n) = insert_after_ops(&main, rng, &DECORATORS, 0.3);
+            main = m;
+            let mut total = n;
+            if let Some(k) = kernel.as_mut() {
+                let (kk, n2) = insert_after_ops(k, rng, &DECORATORS, 0.2);
+                *k = kk;
+                total += n2;
+            }
+            if total == 0 {
+                return None;
+            }
+            c.debug_mode = rng.gen_bool(0.5);
+            note = format!("{total} decorators inserted, debug_mode={}", c.debug_mode);
+        }
+        "adv-injectors" => {
+            let (m, n) = insert_after_ops(&main, rng, &ADV_INJECTORS, 0.3);
+            main = m;
+            if n == 0 {
+                return None;
+            }
+            note = format!("{n} advice injectors inserted");
+        }
+        "all-neutral" => {
+            rename_procs(&mut main, &mut kernel, rng);
+            let (m, _) = insert_after_ops(&main, rng, &DECORATORS, 0.15);
+            let (m, _) = insert_after_ops(&m, rng, &ADV_INJECTORS, 0.15);
+            main = m;
+            c.debug_mode = rng.gen_bool(0.5);
+            fancy = (true, true);
+        }
+        "change-immediate" => {
+            expect_same = false;
+            let start = main_start(&main);
+            let cands: Vec<usize> = (start..main.len())
+                .filter(|&i| {
+                    main[i].strip_prefix("push.").map(|r| !r.is_empty() && r.split('.').all(|p| !p.is_empty() && p.bytes().all(|b| b.is_ascii_digit()))).unwrap_or(false)
+                })
+                .collect();
+            let i = *cands.choose(rng)?;
+            let mut vals: Vec<u64> = main[i][5..].split('.').filter_map(|p| p.parse().ok()).collect();
+            if vals.is_empty() {
+                return None;
+            }
+            let j = rng.gen_range(0..vals.len());
+            let old = vals[j] % P;
+            let mut nv = match rng.gen_range(0..4) {
+                0 => (old + 1) % P,
+                1 => (old + P - 1) % P,
+                2 => old ^ 1,
+                _ => biased_felt(rng),
+            } % P;
+            if nv == old {
+                nv = (old + 2) % P;
+            }
+            vals[j] = nv;
+            note = format!("token #{i} {} → value {} becomes {}", main[i], old, nv);
+            main[i] = format!("push.{}", vals.iter().map(|v| v.to_string()).collect::<Vec<_>>().join("."));
+        }
+        "change-operation" => {
+            expect_same = false;
+            let start = main_start(&main);
+            let cands: Vec<usize> = (start..main.len()).filter(|&i| SIMPLE_INSTR.contains(&main[i].as_str())).collect();
+            let i = *cands.choose(rng)?;
+            let mut new = *SIMPLE_INSTR.choose(rng).unwrap();
+            while new == main[i] {
+                new = *SIMPLE_INSTR.choose(rng).unwrap();
+            }
+            note = format!("token #{i} {} → {}", main[i], new);
+            main[i] = new.to_string();
+        }
+        _ => return None,
+    }
+    if fancy.0 || fancy.1 {
+        c.src = render_fancy(&main, rng, fancy.0, fancy.1);
+        c.kernel = kernel.map(|k| render_fancy(&k, rng, fancy.0, fancy.1));
+    } else {
+        c.src = render_plain(&main);
+        c.kernel = kernel.map(|k| render_plain(&k));
+    }
+    Some(Variant { edit, case: c, expect_same, note })
+}
+
+const KNOWN_DECORATOR_ONLY_PANIC: &str = "decorators in an empty SPAN block";
+
+/// Compares the root (and kernel) of an edited program with the base program's.
+fn judge_variant(base: &Case, base_prog: &Program, v: &Variant, features: &str, rep: &mut Report) -> Option<Box<Program>> {
+    let wit = || json!({"kind": "edit", "edit": v.edit, "expect": if v.expect_same { "same" } else { "different" }, "note": v.note, "case": base.to_json(), "variant": v.case.to_json()});
+    match v.case.assemble() {
+        AsmOutcome::Ok(p) => {
+            rep.eval(&format!("edit|{}|{features}", v.edit));
+            rep.count("edit_evaluated", v.edit);
+            let same = p.hash() == base_prog.hash();
+            let same_kernel = kernels_equal(p.kernel(), base_prog.kernel());
+            if v.expect_same && !same {
+                rep.violation(
+                    format!("edit/{}-changes-root", v.edit),
+                    format!("semantically neutral edit ({}; {}) changed the program hash from {} to {}", v.edit, v.note, digest_str(&base_prog.hash()), digest_str(&p.hash())),
+                    wit(),
+                );
+            }
+            if v.expect_same && !same_kernel {
+                rep.violation(format!("edit/{}-changes-kernel", v.edit), format!("semantically neutral edit ({}) changed the kernel procedure hashes", v.edit), wit());
+            }
+            if !v.expect_same && same {
+                rep.violation(
+                    format!("edit/{}-keeps-root", v.edit),
+                    format!("{}: program hash unchanged ({})", v.note, digest_str(&p.hash())),
+                    wit(),
+                );
+            }
+            Some(p)
+        }
+        AsmOutcome::Err(e) => {
+            // an edited text which no longer assembles is not a statement about the hash
+            rep.count("edit_not_assembled", &format!("{}:{}", v.edit, truncate(&e, 50)));
+            None
+        }
+        AsmOutcome::Panic(p) => {
+            if p.message.contains(KNOWN_DECORATOR_ONLY_PANIC) {
+                rep.count("edit_not_assembled", &format!("{}:panic(decorator-only block, DESIGN §5 item 7)", v.edit));
+            } else {
+                rep.count("edit_not_assembled", &format!("{}:panic:{}", v.edit, p.site()));
+            }
+            None
+        }
+    }
+}
+
+fn features(case: &Case, prog: &Program) -> String {
+    let s = &case.src;
+    format!(
+        "k{}p{}c{}d{}f{}",
+        !prog.kernel().is_empty() as u8,
+        s.contains("proc.") as u8,
+        (s.contains("call.") || s.contains("syscall.")) as u8,
+        (s.contains("dynexec") || s.contains("dyncall")) as u8,
+        (s.contains("if.true") || s.contains("while.true") || s.contains("repeat.")) as u8
+    )
+}
+
+/// (b)+(c)+(d) for one program given as a case.
+fn program_case(case: &Case, family: &str, rng: &mut Rng8, cov: &mut Cov, rep: &mut Report, do_edits: bool, do_exec: bool, do_proof: bool) {
+    let wit = || json!({"kind": "program", "family": family, "case": case.to_json()});
+    let t_asm = std::time::Instant::now();
+    let prog = match case.assemble() {
+        AsmOutcome::Ok(p) => p,
+        AsmOutcome::Err(e) => {
+            rep.count("program_outcome", &format!("{family}:asm-err"));
+            rep.count("program_asm_errors", &truncate(&e, 70));
+            return;
+        }
+        AsmOutcome::Panic(p) => {
+            let k = if p.message.contains(KNOWN_DECORATOR_ONLY_PANIC) { "decorator-only block (DESIGN §5 item 7)".to_string() } else { p.site() };
+            rep.count("program_outcome", &format!("{family}:asm-panic:{k}"));
+            return;
+        }
+    };
+    rep.count("program_outcome", &format!("{family}:assembled"));
+    let t_asm = t_asm.elapsed().as_secs_f64();
+    let t_walk = std::time::Instant::now();
+    let model_root = check_program(&prog, family, cov, rep, &wit);
+    if family == "stdlib" && std::env::var("VERIF_C08_TIMING").is_ok() {
+        eprintln!("C08 stdlib assemble {t_asm:.2}s walk {:.2}s", t_walk.elapsed().as_secs_f64());
+    }
+    if rep.samples.len() < 5 && case.src.len() < 400 {
+        rep.sample(json!({"what": "program walked with M-mast", "family": family, "src": case.src, "kernel": case.kernel, "root": digest_str(&model_root)}));
+    }
+    let mut executed = false;
+    if do_exec {
+        executed = check_execution(case, &prog, model_root, rep, &wit);
+    }
+    if do_edits {
+        let feats = features(case, &prog);
+        for edit in EDITS_SAME.iter().chain(EDITS_DIFF.iter()) {
+            if let Some(v) = make_variant(case, edit, rng) {
+                let vp = judge_variant(case, &prog, &v, &feats, rep);
+                // executions of neutral variants record the same hash
+                if let (Some(vp), true) = (vp, executed && v.expect_same && v.edit != "adv-injectors" && v.edit != "all-neutral" && rng.gen_bool(0.15)) {
+                    let w = || json!({"kind": "program", "family": "edited", "case": v.case.to_json()});
+                    check_execution(&v.case, &vp, model_root, rep, &w);
+                }
+            }
+        }
+    }
+    if do_proof && executed {
+        check_proof(case, &prog, model_root, rep);
+    }
+}
+
+// CORPORA
+// ================================================================================================
+
+/// Hand-written programs guaranteeing that every node kind is present, plus invocation forms.
+fn corpus_case(a: u64, b: u64) -> Case {
+    let src = format!(
+        "proc.f0 push.{a} add end
+proc.f1.2 push.3 loc_store.0 loc_load.0 loc_load.1 add exec.f0 end
+begin
+  push.1 if.true push.2 else push.3 add end
+  push.0 while.true push.0 end
+  repeat.3 push.4 add end
+  exec.f1 call.f0 call.f1
+  procref.f0 dynexec
+  padw procref.f0 dyncall dropw
+  syscall.k0 syscall.k1
+  push.5 if.true add end
+  drop
+end"
+    );
+    let kernel = format!("export.k0 push.{b} drop end\nexport.k1 push.77 drop caller dropw padw end\n");
+    Case { src, kernel: Some(kernel), ..Default::default() }
+}
+
+/// Changing the body of an invoked procedure must change the root for every invocation form.
+fn deep_sensitivity(rng: &mut Rng8, rep: &mut Report) {
+    let a = rng.gen_range(2..1000u64);
+    let b = rng.gen_range(2..1000u64);
+    let forms: [(&str, &str); 6] = [
+        ("exec", "exec.f0"),
+        ("call", "call.f0"),
+        ("procref", "procref.f0 dropw"),
+        ("procref-dynexec", "procref.f0 dynexec"),
+        ("procref-dyncall", "padw procref.f0 dyncall dropw"),
+        ("nested-exec-in-called", "call.f1"),
+    ];
+    for (name, inv) in forms {
+        let mk = |x: u64| Case::new(format!("proc.f0 push.{x} add end proc.f1 exec.f0 swap end begin push.1 if.true {inv} else push.2 end end"));
+        let (c0, c1) = (mk(a), mk(a + 1));
+        if let (AsmOutcome::Ok(p0), AsmOutcome::Ok(p1)) = (c0.assemble(), c1.assemble()) {
+            rep.eval(&format!("edit|callee-body|{name}"));
+            rep.count("edit_evaluated", &format!("callee-body:{name}"));
+            if p0.hash() == p1.hash() {
+                rep.violation(
+                    format!("edit/callee-body-change-keeps-root/{name}"),
+                    format!("changing an immediate in a procedure invoked via `{inv}` keeps the program hash"),
+                    json!({"kind": "edit", "edit": "callee-body", "expect": "different", "case": c0.to_json(), "variant": c1.to_json()}),
+                );
+            }
+        } else {
+            rep.count("edit_not_assembled", &format!("callee-body:{name}"));
+        }
+    }
+    // kernel procedure body: the syscall node, the root and the kernel commitment change
+    let mk = |x: u64| {
+        let mut c = Case::new("begin push.1 syscall.k0 drop end");
+        c.kernel = Some(format!("export.k0 push.{x} drop end"));
+        c
+    };
+    let (c0, c1) = (mk(b), mk(b + 1));
+    if let (AsmOutcome::Ok(p0), AsmOutcome::Ok(p1)) = (c0.assemble(), c1.assemble()) {
+        rep.eval("edit|callee-body|syscall");
+        rep.count("edit_evaluated", "callee-body:syscall");
+        if p0.hash() == p1.hash() || kernels_equal(p0.kernel(), p1.kernel()) {
+            rep.violation(
+                "edit/kernel-body-change-keeps-root-or-kernel",
+                "changing an immediate in a kernel procedure keeps the program hash or the kernel procedure hashes",
+                json!({"kind": "edit", "edit": "callee-body", "expect": "different", "case": c0.to_json(), "variant": c1.to_json()}),
+            );
+        }
+    } else {
+        rep.count("edit_not_assembled", "callee-body:syscall");
+    }
+}
+
+/// (module path, exported procedures) for every stdlib module
+fn stdlib_modules() -> Vec<(String, Vec<String>)> {
+    use assembly::Library;
+    let lib = stdlib::StdLibrary::default();
+    let mut out = vec![];
+    for m in lib.modules() {
+        let path = m.path.to_string();
+        let procs: Vec<String> = m.ast.procs().iter().filter(|p| p.is_export).map(|p| p.name.to_string()).collect();
+        if !procs.is_empty() {
+            out.push((path, procs));
+        }
+    }
+    out.sort();
+    out
+}
+
+/// One program invoking every exported procedure of a module (the module is compiled once):
+/// `exec` inlines the body under the root, every 4th procedure is `call`ed (body reached through
+/// the code block table).
+fn stdlib_case(path: &str, procs: &[String]) -> Case {
+    let last = path.rsplit("::").next().unwrap_or(path);
+    let mut body = String::new();
+    for (i, name) in procs.iter().enumerate() {
+        let inv = if i % 4 == 3 { "call" } else { "exec" };
+        body.push_str(&format!("  {inv}.{last}::{name}\n"));
+    }
+    let mut c = Case::new(format!("use.{path}\nbegin\n{body}end"));
+    c.stdlib = true;
+    c
+}
+
+fn example_files() -> Vec<std::path::PathBuf> {
+    let mut out = vec![];
+    let mut stack = vec![std::path::PathBuf::from("/repo/miden/examples")];
+    while let Some(d) = stack.pop() {
+        if let Ok(rd) = std::fs::read_dir(&d) {
+            for e in rd.flatten() {
+                let p = e.path();
+                if p.is_dir() {
+                    stack.push(p);
+                } else if p.extension().map(|x| x == "masm").unwrap_or(false) {
+                    out.push(p);
+                }
+            }
+        }
+    }
+    out.sort();
+    out
+}
+
+// MODEL SELF-CHECK
+// ================================================================================================
+
+/// The reference batcher itself must satisfy the rules and decode back (otherwise the run says
+/// nothing): checked on the same inputs, reported as INCONCLUSIVE, never as a violation.
+fn model_self_check(ops: &[Operation], rep: &mut Report) {
+    let refops: Vec<RefOp> = ops.iter().map(RefOp::of).collect();
+    let (b, _) = batch_ops(&refops);
+    let plain: Vec<PlainBatch> = b.iter().map(PlainBatch::of_ref).collect();
+    let d = decode_batches(&plain);
+    if let Some((sig, detail)) = d.issues.first() {
+        let _ = detail;
+        rep.inconclusive(format!("model-self-check:{sig}"));
+    }
+    if let Err(e) = same_up_to_noop_padding(&refops, &d.ops) {
+        let _ = e;
+        rep.inconclusive("model-self-check:decode");
+    }
+}
+
+fn opcode_table_check(rep: &mut Report) {
+    let mut all = plain_ops();
+    all.push(Operation::Push(Felt::new(5)));
+    use Operation::*;
+    all.extend_from_slice(&[Join, Split, Loop, Call, Dyn, SysCall, Span, End, Repeat, Respan, Halt]);
+    for op in &all {
+        rep.eval("opcode-table");
+        rep.count("opcode_table", "compared");
+        if op.op_code() != doc_opcode(op) {
+            rep.violation(
+                format!("opcode-table/{}", mast::doc_op_name(doc_opcode(op)).unwrap_or("?")),
+                format!("Operation::{op:?}.op_code() = {} but the documented opcode is {}", op.op_code(), doc_opcode(op)),
+                json!({"kind": "opcode-table"}),
+            );
+        }
+        let real_imm = op.imm_value().is_some();
+        if real_imm != mast::doc_imm(op).is_some() {
+            rep.violation(
+                "opcode-table/immediate-carrying-ops",
+                format!("Operation::{op:?}: imm_value().is_some() = {real_imm}, but the docs say only PUSH carries an immediate"),
+                json!({"kind": "opcode-table"}),
+            );
+        }
+    }
+}
+
+// RUN
+// ================================================================================================
+
+const SHARDS: usize = 64;
+
+pub fn run(cfg: &Cfg) -> Report {
+    let n_exh = cfg.tier.pick(14usize, 18usize);
+    let n_per = cfg.tier.pick(10usize, 12usize);
+    let n_rand = cfg.n(1500, 15000);
+    let n_prog = cfg.n(150, 2500);
+    let n_proof_shards = cfg.tier.pick(4usize, 1usize); // a proof in every k-th shard / in every shard
+    let n_proofs_per = cfg.tier.pick(1usize, 2usize);
+    // the elliptic-curve modules take 5–80 s each to assemble (huge unrolled MASTs): thorough tier only
+    let stdm: Vec<(String, Vec<String>)> = stdlib_modules()
+        .into_iter()
+        .filter(|(p, _)| cfg.tier == Tier::Thorough || !(p.contains("secp256k1") || p.contains("ecgfp5")))
+        .collect();
+    let n_std_procs: usize = stdm.iter().map(|m| m.1.len()).sum();
+    let examples = example_files();
+    let thorough = cfg.tier == Tier::Thorough;
+
+    // jobs 0..stdm.len(): one stdlib module each (scheduled first: some take seconds to assemble);
+    // then the SHARDS shards of everything else
+    let reports = par_map(stdm.len() + SHARDS, |job| {
+        let mut rep = Report::new();
+        let mut cov = Cov::default();
+        if job < stdm.len() {
+            let mut rng = rng_for(cfg.seed, "C08", 1000 + job as u64);
+            let (path, procs) = &stdm[job];
+            let c = stdlib_case(path, procs);
+            let t0 = std::time::Instant::now();
+            let before = rep.get_count("program_outcome", "stdlib:assembled");
+            program_case(&c, "stdlib", &mut rng, &mut cov, &mut rep, false, false, false);
+            if rep.get_count("program_outcome", "stdlib:assembled") > before {
+                rep.count_n("stdlib_procedures_walked", path, procs.len() as u64);
+            }
+            if std::env::var("VERIF_C08_TIMING").is_ok() {
+                eprintln!("C08 module {path:40} {:3} procs {:7.2}s", procs.len(), t0.elapsed().as_secs_f64());
+            }
+            cov.flush(&mut rep);
+            return rep;
+        }
+        let sh = job - stdm.len();
+        let mut rng = rng_for(cfg.seed, "C08", sh as u64);
+        let plain = plain_ops();
+        if sh == 0 {
+            opcode_table_check(&mut rep);
+        }
+        let timing = std::env::var("VERIF_C08_TIMING").is_ok();
+        let mut t_phase = std::time::Instant::now();
+        let mut lap = |name: &str| {
+            if timing {
+                eprintln!("C08 shard {sh:2} {name:10} {:7.2}s", t_phase.elapsed().as_secs_f64());
+            }
+            t_phase = std::time::Instant::now();
+        };
+
+        // (a1) exhaustive push/non-push patterns, both construction routes
+        let mut idx = 0usize;
+        for n in 1..=n_exh {
+            for bits in 0..(1u64 << n) {
+                idx += 1;
+                if idx % SHARDS != sh {
+                    continue;
+                }
+                let ops = pattern_ops(n, bits);
+                pattern_case(&ops, &mut cov, &mut rep);
+                if bits % 257 == 0 {
+                    model_self_check(&ops, &mut rep);
+                }
+            }
+        }
+        lap("exhaustive");
+        // (a2) periodic continuation of every short pattern across several batches
+        for n in 1..=n_per {
+            for bits in 0..(1u64 << n) {
+                idx += 1;
+                if idx % SHARDS != sh {
+                    continue;
+                }
+                let lead = ((bits as usize) + n) % 10;
+                let len = 64 + ((bits as usize * 7 + n * 13) % 120);
+                let mut ops: Vec<Operation> = (0..lead).map(|_| Operation::Mul).collect();
+                for i in 0..len {
+                    ops.push(if (bits >> (i % n)) & 1 == 1 {
+                        Operation::Push(Felt::new(5000 + i as u64))
+                    } else if i % 2 == 0 {
+                        Operation::Add
+                    } else {
+                        Operation::Swap
+                    });
+                }
+                span_via_api(&ops, &mut cov, &mut rep);
+                rep.count("g_span_family", "periodic-patterns(api)");
+                if thorough || bits % 4 == 0 {
+                    let src = pattern_src(&ops[lead..]);
+                    span_via_asm(&ops[lead..], &src, &mut cov, &mut rep);
+                    rep.count("g_span_family", "periodic-patterns(asm)");
+                }
+            }
+        }
+        lap("periodic");
+        // (a3) random opcode sequences up to 600 operations + single-position mutants
+        for i in 0..n_rand {
+            random_span_case(&mut rng, &plain, &mut cov, &mut rep);
+            rep.count("g_span_family", "random(api)");
+            if i % 50 == 0 {
+                let ops = random_ops(&mut rng, &plain);
+                model_self_check(&ops, &mut rep);
+            }
+        }
+
+        lap("random");
+        // (b)(c)(d) generated programs
+        let mut proofs_left = if sh % n_proof_shards == 0 { n_proofs_per } else { 0 };
+        for i in 0..n_prog {
+            let size = if proofs_left > 0 && i < 8 { rng.gen_range(2..8) } else { rng.gen_range(2..40) };
+            let mut gc = GenCfg::random(&mut rng, size);
+            if i % 3 == 0 {
+                // make sure the rarer node kinds keep coming
+                gc.procs = true;
+                gc.calls = true;
+                gc.dynamic = true;
+                gc.kernel = i % 2 == 0;
+                gc.flow = true;
+            }
+            let mut case = gen_case(&mut rng, &gc);
+            if i % 7 == 0 {
+                case.debug_mode = true;
+            }
+            let want_proof = proofs_left > 0 && i < 8;
+            let before = rep.get_count("proof_outcome", "accepted-for-model-root");
+            program_case(&case, "generated", &mut rng, &mut cov, &mut rep, true, true, want_proof);
+            if rep.get_count("proof_outcome", "accepted-for-model-root") > before {
+                proofs_left -= 1;
+            }
+        }
+        lap("generated");
+        // hand-written corpus: all node kinds, invocation forms
+        if sh < 8 {
+            let c = corpus_case(rng.gen_range(2..1u64 << 40), rng.gen_range(2..1u64 << 40));
+            program_case(&c, "corpus", &mut rng, &mut cov, &mut rep, true, false, false);
+            deep_sensitivity(&mut rng, &mut rep);
+        }
+        lap("corpus");
+        // repository examples
+        for (i, p) in examples.iter().enumerate() {
+            if i % SHARDS != sh {
+                continue;
+            }
+            if let Ok(src) = std::fs::read_to_string(p) {
+                let mut c = Case::new(src);
+                c.stdlib = true;
+                program_case(&c, "examples", &mut rng, &mut cov, &mut rep, false, false, false);
+                rep.count("example_files", &p.display().to_string());
+            }
+        }
+        lap("examples");
+        cov.flush(&mut rep);
+        rep
+    });
+    let mut rep = merge_all(reports);
+    rep.note("bounds", json!({"exhaustive_pattern_length": n_exh, "periodic_pattern_length": n_per, "random_spans_per_shard": n_rand, "generated_programs_per_shard": n_prog, "shards": SHARDS, "stdlib_modules": stdm.len(), "stdlib_procedures": n_std_procs, "example_files": examples.len()}));
+
+    // FLOORS
+    let mut missing = vec![];
+    for g in 1..=GROUPS_PER_BATCH {
+        for o in 1..=OPS_PER_GROUP {
+            if rep.get_count("accumulator_state(groups_in_use,ops_in_group)", &format!("g{g}o{o}")) == 0 {
+                missing.push(format!("g{g}o{o}"));
+            }
+        }
+    }
+    rep.floor(missing.is_empty(), &format!("all-72-accumulator-states(missing:{})", missing.join(",")));
+    let big: u64 = (4..=11).map(|i| rep.get_count("span_batches", &if i == 11 { ">10".to_string() } else { i.to_string() })).sum();
+    rep.floor(big >= 1, "a-span-with-more-than-3-batches");
+    for k in ["join", "split", "loop", "call", "syscall", "dyn", "span", "dyncall"] {
+        rep.floor(rep.get_count("mast_node_kind", k) >= 1, &format!("mast-node-kind-{k}-hashed"));
+    }
+    for e in ["immediate-in-last-group-of-batch", "push-deferred-from-group-index-8", "new-batch:no-group-left-for-immediate", "new-batch:all-groups-full", "push-last-in-group-followed-by-noop"] {
+        rep.floor(rep.get_count("batching_events", e) >= 1, &format!("batching-event-{e}"));
+    }
+    for e in EDITS_SAME.iter().chain(EDITS_DIFF.iter()) {
+        rep.floor(rep.get_count("edit_evaluated", e) >= 20, &format!("edit-{e}-evaluated-20x"));
+    }
+    rep.floor(rep.get_count("exec_outcome", "ok") >= 50, "50-executions-compared");
+    rep.floor(rep.get_count("exec_end_row_hash", "compared") >= 50, "50-decoder-end-rows-compared");
+    rep.floor(rep.get_count("proof_outcome", "accepted-for-model-root") >= 4, "4-proofs-verified-against-model-root");
+    let walked: u64 = rep.hist.get("stdlib_procedures_walked").map(|h| h.values().sum()).unwrap_or(0);
+    rep.floor(walked as usize >= n_std_procs * 9 / 10 && n_std_procs > 0, "stdlib-procedures-walked");
+    rep.floor(examples.is_empty() || rep.get_count("program_outcome", "examples:assembled") >= 1, "example-programs-walked");
+    rep.floor(rep.get_count("span_sensitivity", "immediate") >= 20 && rep.get_count("span_sensitivity", "operation") >= 20, "span-mutants");
     rep
 }
 
-pub fn replay(_v: &serde_json::Value, _rep: &mut Report) {}
+// REPLAY
+// ================================================================================================
+
+pub fn replay(v: &Value, rep: &mut Report) {
+    let mut cov = Cov::default();
+    let mut rng = rng_for(0, "C08-replay", 0);
+    let parse_ops = |x: &Value| -> Vec<Operation> { x.as_array().map(|a| a.iter().filter_map(op_from_json).collect()).unwrap_or_default() };
+    match v.get("kind").and_then(|k| k.as_str()).unwrap_or("") {
+        "span" => {
+            let ops = parse_ops(&v["ops"]);
+            if ops.is_empty() {
+                return;
+            }
+            span_via_api(&ops, &mut cov, rep);
+            if let Some(src) = v.get("src").and_then(|s| s.as_str()) {
+                span_via_asm(&ops, src, &mut cov, rep);
+            }
+        }
+        "span-pair" => {
+            let (a, b) = (parse_ops(&v["ops"]), parse_ops(&v["mutant"]));
+            if let (Some(ha), Some(hb)) = (span_via_api(&a, &mut cov, rep), span_via_api(&b, &mut cov, rep)) {
+                if ha == hb && a != b {
+                    rep.violation("span/hash-insensitive-to-change", "two different operation sequences have the same span hash", v.clone());
+                }
+            }
+        }
+        "program" => {
+            if let Some(case) = v.get("case").and_then(Case::from_json) {
+                program_case(&case, v.get("family").and_then(|f| f.as_str()).unwrap_or("replay"), &mut rng, &mut cov, rep, false, true, false);
+            }
+        }
+        "proof" => {
+            if let Some(case) = v.get("case").and_then(Case::from_json) {
+                program_case(&case, "replay", &mut rng, &mut cov, rep, false, true, true);
+            }
+        }
+        "edit" => {
+            let base = v.get("case").and_then(Case::from_json);
+            let var = v.get("variant").and_then(Case::from_json);
+            if let (Some(base), Some(var)) = (base, var) {
+                if let AsmOutcome::Ok(bp) = base.assemble() {
+                    let edit: &'static str = EDITS_SAME
+                        .iter()
+                        .chain(EDITS_DIFF.iter())
+                        .copied()
+                        .find(|e| Some(*e) == v.get("edit").and_then(|x| x.as_str()))
+                        .unwrap_or("replayed-edit");
+                    let variant = Variant {
+                        edit,
+                        case: var,
+                        expect_same: v.get("expect").and_then(|e| e.as_str()) != Some("different"),
+                        note: v.get("note").and_then(|e| e.as_str()).unwrap_or("").to_string(),
+                    };
+                    judge_variant(&base, &bp, &variant, "replay", rep);
+                }
+            }
+        }
+        "opcode-table" => opcode_table_check(rep),
+        _ => {}
+    }
+}
